@@ -1,5 +1,6 @@
 (** C05 — cancellation or an executor panic never corrupts the engine.
-    Proved for the core fragment of the engine model.  Publications run in non-cancellable
+    Proved for the core fragment of the engine model and ([C05_model_cancel_sound]) for the full
+    model with every query kind.  Publications run in non-cancellable
     sections, and every publication is the last action of a (sub-)request, so what a query
     that is dropped at a suspension point leaves behind is the effect of the sub-requests
     that had completed; its computing entries are volatile.  That is modelled by [CPartial]:
@@ -13,6 +14,7 @@
     engine by `engine cancel` (cancellation after every number of polls, panics, dropped
     commit futures), not proved. *)
 From QV Require Import Common.Prelude Engine.Model Engine.Core Engine.CoreSpec Engine.CoreCancel.
+From QV Require Import Engine.MdlSpec Engine.MdlCancel.
 
 Theorem C05_core_cancel_sound : forall fuel p ops i n r z,
   wf_core p -> csessions_fuelled fuel p ops i -> cpartials_ok p ops i ->
@@ -37,6 +39,30 @@ Theorem C05_core_cancel_once : forall fuel p ops i j m lj li,
    ~ cno_session_between ops j i).
 Proof. exact CoreCancel.C05_core_cancel_once. Qed.
 
+(** The FULL model [Engine/Model.v] (Normal, Firewall, Projection queries, unordered groups,
+    external inputs): [MPartial stk c fr n] is a completed sub-request [query_for] with ARBITRARY
+    stack, caller, flags, previous-dependency list and frame, interleaved anywhere, whose outcome
+    is discarded.  Side condition [mpartial_ok]: every stack member reads the requested query
+    (true of every real stack), root-kind callers have the empty stack, and a NON-pedantic
+    sub-request is only started where the engine starts one (its transitive firewall callees,
+    resp. the firewalls accounted for by the caller, are verified) - shown necessary
+    ([C05_model_cancel_side_condition_needed]). *)
+Theorem C05_model_cancel_sound :
+  forall p ops i n r z,
+    wf_model_x p -> mcsessions_fuelled fuel0 4000 p ops i -> mpartials_ok fuel0 4000 p ops i ->
+    nth_error ops i = Some (MUser (OQuery n)) ->
+    nth_error (mrun_cancel_f fuel0 4000 p init_state ops) i = Some (Some r) -> r_out r = RValue z ->
+    MdlSpecX p (minputs_after (firstn i ops),
+                ext_after_c (firstn (S i) ops) (firstn (S i) (mexecs_cancel_f fuel0 4000 p init_state ops))) n z.
+Proof. exact MdlCancel.model_cancel_sound_x. Qed.
+Theorem C05_model_cancel_user_step_is_step : forall p s o,
+  mstep_cancel_f fuel0 4000 p s (MUser o) = (let '(s', r) := step p s o in (s', Some r)).
+Proof. exact MdlCancel.mstep_cancel_user. Qed.
+Theorem C05_model_cancel_side_condition_needed : ~ model_cancel_sound_unguarded.
+Proof. exact MdlCancel.model_cancel_side_condition_needed. Qed.
+Check mpartial_unchanged.
+Check mcx_run_ok.     (* cancelled pedantic work is reused: right answer afterwards *)
+
 (** a partial request that does not complete (panic, fuel) leaves the state untouched *)
 Check cpartial_unchanged.
 Check RStkOk_cstack_ok.     (* every stack of a real run satisfies the side condition *)
@@ -46,3 +72,6 @@ Check ex_cancel_bad_stack.  (* and the side condition is needed *)
 Print Assumptions C05_core_cancel_sound.
 Print Assumptions C05_core_cancel_no_panic.
 Print Assumptions C05_core_cancel_once.
+Print Assumptions C05_model_cancel_sound.
+Print Assumptions C05_model_cancel_user_step_is_step.
+Print Assumptions C05_model_cancel_side_condition_needed.
